@@ -71,7 +71,9 @@ func (f *Ecase) Call(s *slip.Scope, args slip.List, depth int) (result slip.Obje
 		}
 		if same {
 			for i := 1; i < len(clause); i++ {
-				result = slip.EvalArg(s, clause, i, d2)
+				if result = slip.EvalArg(s, clause, i, d2); slip.IsExit(result) {
+					break
+				}
 			}
 			found = true
 			break
